@@ -298,7 +298,11 @@ where
 
     /// Set the data rate being used by this device. This overrides the region default.
     pub fn set_datarate(&mut self, datarate: DR) {
-        self.mac.configuration.data_rate = datarate;
+        // a data rate the region does not define for uplinks is ignored (it would panic or
+        // transmit with a downlink-only modulation at the next send)
+        if self.mac.region.uplink_datarate_valid(datarate) {
+            self.mac.configuration.data_rate = datarate;
+        }
     }
 
     /// Whether Adaptive Data Rate (ADR) is enabled.
